@@ -37,8 +37,9 @@ EXPLANATION = (
     "is not a DependentSampler, drawn inside that loop; the pending dict holds exactly the complementary symbols; the dict is "
     "appended after the loop `while pending` (hence with every dependent present) once per range(samples) and the list is "
     "returned; (D3, ROLE) sample[s] = sample_from[s].compute_sample(sample, functions, suffixes) -- same dict, same symbol, "
-    "functions/suffixes in their roles -- executed only under is_subset(<its depends>, sample); is_subset is the universal "
-    "membership test; (D4) DependentSampler.__init__ stores list(parse(formula).variables_used) as depends inside a handler "
+    "functions/suffixes in their roles -- executed only under is_subset(<its depends>, sample) (control dependence); is_subset "
+    "is the universal membership test: all()/issubset form, or a search loop whose only in-loop exit is `return False` "
+    "controlled by `item not in superset` and whose `return True` is reached only after the loop is exhausted (CFG); (D4) DependentSampler.__init__ stores list(parse(formula).variables_used) as depends inside a handler "
     "that turns CalcError into ConfigError; compute_sample calls evaluator(formula=own formula, variables=the given sample, "
     "functions, suffixes) under the same translation and returns the value; gen_sample raises on every path; (D5, REGEX) "
     "the numbered-variable pattern keeps the alternation of heads intact in group 2 at the start of group 1, is anchored at "
@@ -602,27 +603,80 @@ def d3_roles(ctx, idx):
                     r.ok(construct, short(body[0].value), sub.loc)
                     done = True
                     break
-        elif len(body) == 2 and isinstance(body[0], ast.For) and isinstance(body[1], ast.Return) and X.is_name(body[0].iter, a) \
-                and isinstance(body[0].target, ast.Name) and not body[0].orelse:
-            inner = _body(body[0].body)
-            if len(inner) == 1 and isinstance(inner[0], ast.If) and not inner[0].orelse:
-                rets = _body(inner[0].body)
-                if len(rets) == 1 and isinstance(rets[0], ast.Return) and isinstance(rets[0].value, ast.Constant) \
-                        and isinstance(body[1].value, ast.Constant):
-                    res = nf.classify("%s not in %s" % (body[0].target.id, bname), inner[0].test)
-                    early, final = rets[0].value.value, body[1].value.value
-                    if res == nf.MATCH and early is False and final is True:
-                        r.ok(construct, 'for/if-not-in/return False; return True', sub.loc)
-                    elif res == nf.MATCH:
-                        r.violation(construct, 'returns %r for a missing item and %r otherwise' % (early, final), sub.loc)
-                    elif isinstance(res, tuple):
-                        r.violation(construct, res[1] + ': is_subset answers the opposite question, dependents are computed exactly when '
-                                    'something they need is missing', lib.loc(sub, inner[0]), expected='if item not in iterable_superset: return False')
-                    else:
-                        r.undecided(construct, 'test not recognised: %s' % short(inner[0].test), sub.loc)
-                    done = True
+        else:
+            done = _subset_loop(r, sub, construct, a, bname)
         if not done:
             r.undecided(construct, 'body not recognised', sub.loc)
+
+
+def _subset_loop(r, sub, construct, a, bname):
+    """The search-loop family: one `for item in iterable` whose only in-loop exit is `return False` on a missing item;
+    `True` is returned only after the loop has run to exhaustion. Decided on the CFG, not on the statement layout."""
+    fn = sub.node
+    loops = [l for l in walk_own(fn) if isinstance(l, (ast.For, ast.While))]
+    rets = lib.returns_of(fn)
+    if len(loops) != 1 or not isinstance(loops[0], ast.For) or not X.is_name(loops[0].iter, a) or not isinstance(loops[0].target, ast.Name) \
+            or not rets or not all(isinstance(x.value, ast.Constant) and isinstance(x.value.value, bool) for x in rets):
+        return False
+    loop = loops[0]
+    item = loop.target.id
+    cfg = cfg_of(fn)
+    # no path may fall off the end (None is falsy but not the documented answer)
+    if any(not (p.kind == 'stmt' and isinstance(p.ast, ast.Return)) for p, lab in cfg.exit_return.preds):
+        return False
+    inside = [x for x in rets if X.in_subtree(x, loop)]
+    outside = [x for x in rets if not X.in_subtree(x, loop)]
+    true_inside = [x for x in inside if x.value.value is True]
+    false_inside = [x for x in inside if x.value.value is False]
+    if true_inside:
+        r.violation(construct, '`return True` is reachable from inside the loop body: the function answers after looking at the first '
+                    'dependenc%s only, so a dependent is computed while later dependencies are still missing' % (
+                        'y that is present' if any(isinstance(p_, ast.If) for p_ in _ancestors_in(true_inside[0], loop)) else 'y'),
+                    lib.loc(sub, true_inside[0]), expected='return True only after the loop has visited every item')
+        return True
+    if any(isinstance(x, ast.Break) for x in ast.walk(loop)) or loop.orelse:
+        return False
+    if not outside or any(x.value.value is not True for x in outside):
+        if outside and all(x.value.value is False for x in outside) and not true_inside:
+            r.violation(construct, 'the function returns False after the loop as well: no set of dependencies is ever ready', lib.loc(sub, outside[0]))
+            return True
+        return False
+    if not false_inside:
+        r.violation(construct, 'the loop never returns False: every dependent counts as ready, whatever is missing', lib.loc(sub, loop),
+                    expected='if item not in iterable_superset: return False')
+        return True
+    # every in-loop `return False` is control dependent on "item is missing"
+    tests = [g for g in ast.walk(loop) if isinstance(g, ast.If)]
+    for x in false_inside:
+        verdicts = []
+        for g in tests:
+            missing = X.m("%s not in %s" % (item, bname), g.test) is not None
+            present = X.m("%s in %s" % (item, bname), g.test) is not None
+            if not (missing or present):
+                continue
+            on_missing = X.controlled_by(sub, g, missing, x)          # reached only when the item is missing
+            on_present = X.controlled_by(sub, g, not missing, x)      # reached only when the item is present
+            verdicts.append((g, on_missing, on_present))
+        if any(v[1] for v in verdicts):
+            continue
+        if any(v[2] for v in verdicts):
+            g = [v[0] for v in verdicts if v[2]][0]
+            r.violation(construct, '`return False` is taken when the item IS in the superset (`%s`): is_subset answers the opposite question, '
+                        'dependents are computed exactly when something they need is missing' % short(g.test), lib.loc(sub, g),
+                        expected='if item not in iterable_superset: return False')
+            return True
+        return False
+    r.ok(construct, 'False on the first missing item, True only after the loop is exhausted', sub.loc)
+    return True
+
+
+def _ancestors_in(node, root):
+    out = []
+    p = parent(node)
+    while p is not None and p is not root:
+        out.append(p)
+        p = parent(p)
+    return out
 
 
 # ----------------------------------------------------------------------------- D4
@@ -946,6 +1000,10 @@ def _index_hint(got):
         return 'indices with leading zeros (b_{05}) are taken for numbered variables'
     if not any(a and a[0] == (0, 1, frozenset('-')) for a in alts):
         return 'negative indices (b_{-3}) are no longer numbered variables'
+    if not any(any(u[2] >= DIGITS and u[1] == INF_ for u in a[1:]) for a in alts if len(a) > 1):
+        return ('after the first digit only %s may follow: multi-digit indices containing the digit 0 (b_{10}, b_{-20}, b_{105}) are no '
+                'longer numbered variables and get no sample' % ('non-zero digits' if any(
+                    any(u[1] == INF_ and u[2] == frozenset('123456789') for u in a) for a in alts) else 'a restricted set of digits'))
     if ((1, 1, frozenset('0')),) not in alts:
         return 'the index 0 is no longer accepted'
     if got[0] != INDEX_REFERENCE[0] or got[2] != INDEX_REFERENCE[2]:
@@ -1345,6 +1403,7 @@ MUTANTS = [
     Mutant('readiness-test-dropped', SAMPLING, "                if is_subset(dependencies, sample_dict):", "                if True:", 'D3'),
     Mutant('readiness-test-arguments-swapped', SAMPLING, "                if is_subset(dependencies, sample_dict):", "                if is_subset(sample_dict, dependencies):", 'D3'),
     Mutant('is-subset-inverted', SAMPLING, "        if item not in iterable_superset:\n            return False", "        if item in iterable_superset:\n            return False", 'D3'),
+    Mutant('is-subset-answers-after-first-item', SAMPLING, "        if item not in iterable_superset:\n            return False\n    return True", "        if item not in iterable_superset:\n            return False\n        return True\n    return True", 'D3'),
     Mutant('independents-are-the-dependents', SAMPLING, "        if not isinstance(sample_from[symbol], DependentSampler)\n    ]", "        if isinstance(sample_from[symbol], DependentSampler)\n    ]", 'D2'),
     Mutant('computed-from-the-constants-only', SAMPLING, "                    sample_dict[symbol] = sample_from[symbol].compute_sample(\n                        sample_dict, functions, suffixes)",
            "                    sample_dict[symbol] = sample_from[symbol].compute_sample(\n                        pruned_constants, functions, suffixes)", 'D3'),
@@ -1392,6 +1451,7 @@ BENIGN = [
     Benign('dict-values-extended', MH, "                expressions += [v for k, v in entry.items()]", "                expressions.extend(entry.values())"),
     Benign('flag-tested-with-is-false', SAMPLING, "            if not progress_made:", "            if progress_made is False:"),
     Benign('dependent-popped', SAMPLING, "                    del unevaluated_dependents[symbol]\n", "                    unevaluated_dependents.pop(symbol)\n"),
+    Benign('is-subset-guard-clause', SAMPLING, "        if item not in iterable_superset:\n            return False\n    return True", "        if item in iterable_superset:\n            continue\n        return False\n    return True"),
     Benign('is-subset-with-all', SAMPLING, "    for item in iterable:\n        if item not in iterable_superset:\n            return False\n    return True",
            "    return all(item in iterable_superset for item in iterable)"),
     Benign('constants-merged-with-update', SAMPLING, "    for var in user_consts:\n        constants[var] = user_consts[var]\n", "    constants.update(user_consts)\n"),
